@@ -115,6 +115,10 @@ class PendingModule(PendingNode[Module]):
 
 class PendingExpr(PendingNode[Expr]):
     def get_result(self) -> list[expr]:
+        if isinstance(self.node.value, Starred):
+            raise SyntaxError(
+                utils.ast_debug_info(self.node) + "can't use starred expression here"
+            )
         return [expr_transf(self.nsp, self.node.value)]
 
 
@@ -741,6 +745,11 @@ class PendingAssign(PendingNode[Assign | AnnAssign]):
     def get_result(self) -> list[expr]:
         if self.node.value is None:
             return []
+
+        if isinstance(self.node.value, Starred):
+            raise SyntaxError(
+                utils.ast_debug_info(self.node) + "can't use starred expression here"
+            )
 
         return_list: list[expr] = []
         assign_value = expr_transf(self.nsp, self.node.value)
